@@ -292,7 +292,7 @@ func (ga *GenAnalysis) readRecord(gf *genfacts.GenFile, spec genfacts.RecordSpec
 		if len(fd.Recv.List) == 1 {
 			_, mf.PtrRecv = fd.Recv.List[0].Type.(*ast.StarExpr)
 		}
-		l := &wire.Lifter{Info: gf.Info, Fset: gf.Fset, Src: gf.Snippet, RecClass: goRecClass}
+		l := &wire.Lifter{Info: gf.Info, Fset: gf.Fset, Src: gf.Snippet, RecClass: goRecClass, RecFixed: goRecFixed}
 		if iohelp != nil {
 			l.Iohelp = iohelp.Types
 		}
@@ -477,7 +477,7 @@ func (rf *RecFacts) where(pos token.Pos) string {
 // option only changes the first letter).
 func goRecClass(goName string) string {
 	switch strings.ToLower(goName) {
-	case "sta", "ste", "str", "stm", "lowst", "ist", "ibs", "ubs", "ube":
+	case "sta", "ste", "str", "stm", "stw", "stx", "stv", "stf", "stbig", "lowst", "ist", "ibs", "ubs", "ube", "ubt":
 		return "struct"
 	case "msa", "mse", "ims", "ubm":
 		return "message"
@@ -485,4 +485,25 @@ func goRecClass(goName string) string {
 		return "union"
 	}
 	return ""
+}
+
+
+// goRecFixed: wire size of the universe's structs that are made of fixed-size
+// fields only (spec widths: int32 4, float64 8, uint64 8, guid 16, date 8).
+func goRecFixed(goName string) (int, bool) {
+	switch strings.ToLower(goName) {
+	case "stf":
+		return 12, true
+	case "stbig":
+		return 256, true
+	case "ubs":
+		return 8, true
+	case "ubt":
+		return 16, true
+	case "ste", "ube":
+		return 0, true
+	case "ibs":
+		return 8, true
+	}
+	return 0, false
 }
